@@ -73,6 +73,10 @@ class FT(T):
     a, ta = self.expr(n.left)
     b, tb = self.expr(n.right)
     sym = {ast.Add: "add", ast.Sub: "sub", ast.Mult: "mul", ast.Div: "div"}.get(type(n.op))
+    if isinstance(n.op, ast.FloorDiv) and Q in (ta, tb):
+      a2 = self.coerce(a, ta, Q)
+      b2 = self.coerce(b, tb, Q)
+      return ("(inject_Z (Qfloor (Qdiv %s %s)))" % (a2, b2), Q)     # Python // on floats
     if Q in (ta, tb) or VEC in (ta, tb) or MAT in (ta, tb):
       if sym is None:
         raise TranslationError("float operator %s" % ast.dump(n.op))
@@ -169,8 +173,8 @@ class FT(T):
     if f == "jnp.maximum" and len(args) == 2:
       a, ta = self.expr(args[0])
       b, tb = self.expr(args[1])
-      if ta == Q and tb == Q:
-        return ("(Qmax %s %s)" % (a, b), Q)
+      if Q in (ta, tb) and {ta, tb} <= {Q, "Z"}:
+        return ("(Qmax %s %s)" % (self.coerce(a, ta, Q), self.coerce(b, tb, Q)), Q)
     if f == "jnp.matmul" and len(args) == 2:
       a, ta = self.expr(args[0])
       b, tb = self.expr(args[1])
